@@ -2096,3 +2096,45 @@ def rule_P12(ctx, reader, obj, rid='P12'):
                'the writer stored is never restored (or a missing one is requested)'
                % (lname, cex[0], cex[1], key, cex[0] - 1))
     return n
+
+
+# ---------------------------------------------------------------------------
+# P13 writer and reader walk the layers of a network over the same range
+# ---------------------------------------------------------------------------
+
+def rule_P13(ctx, rid='P13'):
+    ctx.rule(rid, 'layer agreement: write() and read() of the emulator enumerate the layers of a '
+             'network over the same range')
+    prog = ctx.program
+    n = 0
+    # layer ranges
+    w = prog.func('NeuralNetworkEmulator.write')
+    r = prog.func('NeuralNetworkEmulator.read')
+
+    def layer_ranges(f):
+        out = []
+        for x in ast.walk(f.node):
+            it = None
+            if isinstance(x, ast.For):
+                it = x.iter
+            elif isinstance(x, ast.comprehension):
+                it = x.iter
+            if isinstance(it, ast.Call) and dotted(it.func) == 'range' and any(
+                    isinstance(y, ast.Attribute) and y.attr == 'n_layers_' for y in ast.walk(it)):
+                out.append(it)
+        return out
+    wr, rr = layer_ranges(w), layer_ranges(r)
+    if wr and rr:
+        def key(it):
+            import re
+            return re.sub(r'\b\w+\.n_layers_', 'NET.n_layers_', unparse(it).replace(' ', ''))
+        wk, rk = {key(x) for x in wr}, {key(x) for x in rr}
+        ok = len(wk) == 1 and wk == rk
+        n += 1
+        ctx.ob(rid, 'NeuralNetworkEmulator:layer-range-agrees', ok, r.where(rr[0]),
+               'write() and read() enumerate the layers over %s' % sorted(wk)[0] if ok else
+               'write() enumerates the layers over %s but read() over %s: a layer is lost or a '
+               'missing one is requested' % (sorted(wk), sorted(rk)))
+    else:
+        ctx.note('%s not decided: layer loops not found' % rid)
+    return n
